@@ -1,5 +1,5 @@
 """C07 - identical data is stored once."""
-from harness import core, repo_hist
+from harness import cli_hist, core, repo_hist
 from harness.core import Report
 
 RULE = ('cases = crash-free multi-user histories with heavy content overlap (identical files, shared blocks, repeated snapshots of '
@@ -11,11 +11,16 @@ CHECKS = {'dedup'}
 MINE = ('not_exact', 'upload_set', 'repeat_uploaded_payload', 'table_dup', 'family_alias', 'exception', 'unknown_object')
 
 
+CLI_MINE = ('exception', 'hang', 'snapshot_unreadable', 'snapshot_objects', 'snapshot_name', 'upload_set', 'repeat_uploaded_payload', 'table_dup', 'not_exact', 'shared_secrets_differ', 'independent_secrets_equal')
+
+
 def _run(ctx, n, nops, rep, concurrent=None):
     seeds = [ctx.rng.randint(0, 2 ** 31) for _ in range(n)]
     repo_hist.run_batch(seeds, ctx.scratch, rep, nops=nops, weights=WEIGHTS, checks=CHECKS,
                         concurrent=concurrent or ctx.rng.choice([1, 2, 4]), delay=0.001)
     rep.violations[:] = [v for v in rep.violations if v['signature']['kind'] in MINE]
+    # the same property through the tool as a user runs it: fresh `python -m replicat` processes, a repository on disk, real faults
+    cli_hist.run_scenarios(ctx, rep, {'plain': ctx.scale(6, 60)}, CLI_MINE)
 
 
 def run(ctx) -> Report:
@@ -32,6 +37,9 @@ def search(ctx, broken) -> Report:
 
 
 def replay(ctx, obj):
+    rc = cli_hist.replay_cli(ctx, obj, CLI_MINE)
+    if rc is not None:
+        return rc
     rep = Report(rule=RULE)
     seed = (obj.get('replay') or {}).get('seed')
     if seed is None:
